@@ -235,7 +235,10 @@ class Models:
             for f in fields:
                 ft = T[f['ty']]
                 if ft['kind'] == 'adt' and ft.get('simd'):
-                    vals.append(TermV(('vec', fresh('vec'))))
+                    # I-SPLAT: v1 / v2 are splats of one byte each
+                    b = fresh(f['name'] + '_byte')
+                    st.store.add_range(V(b), 0, 255)
+                    vals.append(TermV(('splat', V(b))))
                 elif ft['kind'] == 'int':
                     mhl = I.fresh_int(st, ft, f['name'])
                     vals.append(mhl)
@@ -248,6 +251,21 @@ class Models:
                     if isinstance(x, IntV):
                         st.store.add_le(x.e + vbytes - mhl.e)
             return AdtV(tid, 0, vals)
+        if p == 'arch::x86_64::avx2::packedpair::Finder':
+            # I-AVX2PP: both halves were built from the same needle and pair (same offsets, same splatted bytes)
+            fields = ty['variants'][0]['fields']
+            if len(fields) == 2 and all(T[f['ty']].get('path') == 'arch::generic::packedpair::Finder' for f in fields):
+                a = self.type_hook(I, st, fields[0]['ty'], T[fields[0]['ty']], name + '.sse2')
+                b = self.type_hook(I, st, fields[1]['ty'], T[fields[1]['ty']], name + '.avx2')
+                if isinstance(a, AdtV) and isinstance(b, AdtV) and len(a.fields) == 4 and len(b.fields) == 4:
+                    bsz = next((T[f['ty']].get('size') for f in T[fields[1]['ty']]['variants'][0]['fields'] if T[f['ty']].get('simd')), None)
+                    nb = AdtV(b.tid, 0, [a.fields[0], a.fields[1], a.fields[2], b.fields[3]])
+                    if bsz and isinstance(a.fields[0], AdtV):
+                        for x in a.fields[0].fields:
+                            if isinstance(x, IntV):
+                                st.store.add_le(x.e + bsz - b.fields[3].e)
+                    st.store.add_le(a.fields[3].e - b.fields[3].e)
+                    return AdtV(tid, 0, [a, nb])
         if p in ('core::ptr::non_null::NonNull', 'core::ptr::NonNull') and ty.get('targs'):
             # NonNull<[T]> inside an owning container (Box): valid, non-null memory
             to = T[ty['targs'][0]]
@@ -340,6 +358,12 @@ class Models:
                     pair_v = val.fields[i]
             ok = bool(vbytes) and isinstance(mhl, IntV) and isinstance(pair_v, AdtV) and pair_v.fields is not None
             bad = []
+            for i, f in enumerate(fields):
+                ft = T[f['ty']]
+                if ft['kind'] == 'adt' and ft.get('simd'):
+                    x = val.fields[i]
+                    if not (isinstance(x, TermV) and isinstance(x.t, tuple) and x.t and x.t[0] == 'splat'):
+                        bad.append(f"{f['name']} is a splat of one byte (I-SPLAT)")
             if ok:
                 for j, x in enumerate(pair_v.fields):
                     if isinstance(x, IntV):
@@ -395,9 +419,9 @@ class Models:
         g0 = states[0].ghost
         out = {}
         for key, d0 in g0.items():
-            if isinstance(d0, dict) and key not in ('search', 'spec_info'):
+            if isinstance(d0, dict) and key not in ('search', 'spec_info', 'pairspec'):
                 out[key] = {k: v for k, v in d0.items() if all(s.ghost.get(key, {}).get(k) == v for s in states[1:])}
-            elif key in ('search', 'spec_info'):
+            elif key in ('search', 'spec_info', 'pairspec'):
                 out[key] = d0        # set once at the root, identical on every path
             elif all(s.ghost.get(key) == d0 for s in states[1:]):
                 out[key] = d0
